@@ -68,6 +68,9 @@ Definition step_transparent (u c : sobs) : Prop :=
 
 Definition hist_goodb (p : pipeline) (h : list step) : bool :=
   forallb (fun q => wf_pipelineb q && roots_okb q) (hist_pipelines p h).
+(* the only side condition of the final theorems: every pipeline of the history is well-formed, i.e. accepted by
+   construction-time validation (roots_okb follows: Proofs/RootArgsFacts.v) *)
+Definition hist_wfb (p : pipeline) (h : list step) : bool := forallb wf_pipelineb (hist_pipelines p h).
 
 (* a boolean that every transparent pair of observation lists satisfies (used to refute): single values are
    compared, full_output dictionaries are not inspected *)
